@@ -773,6 +773,15 @@ var stdTable = map[string]stdEffect{
 	"(*bytes.Buffer).Bytes":           {retArg: []int{0}},
 	"(*bytes.Buffer).String":          {pure: true},
 	"(*bytes.Buffer).Len":             {pure: true},
+	"(*sync.Mutex).Lock":              {writeDeep: []int{0}},
+	"(*sync.Mutex).Unlock":            {writeDeep: []int{0}},
+	"(*sync.RWMutex).Lock":            {writeDeep: []int{0}},
+	"(*sync.RWMutex).Unlock":          {writeDeep: []int{0}},
+	"(*sync.RWMutex).RLock":           {writeDeep: []int{0}},
+	"(*sync.RWMutex).RUnlock":         {writeDeep: []int{0}},
+	"(*sync.Pool).Get":                {writeDeep: []int{0}, retArg: []int{0}},
+	"(*sync.Pool).Put":                {writeDeep: []int{0}},
+	"(*sync.Once).Do":                 {writeDeep: []int{0}, callsArg: []int{1}},
 	"unicode/utf8.RuneLen":            {pure: true},
 	"strconv.Itoa":                    {pure: true},
 }
